@@ -36,7 +36,8 @@ GeoLo == <<-1, 1>>
 GeoH  == <<1, 2>>
 FlagSeq == [i \in 1..16 |-> <<(i - 1) \div 8, ((i - 1) \div 4) % 2, ((i - 1) \div 2) % 2, (i - 1) % 2>>]
 GeoCase(k, f) ==
-  LET m == k.shapeIn[1]  n == k.shapeOut[1]  o == k.offs[1]
+  LET m == k.shapeIn[1]  n == k.shapeOut[1]
+      o == EffOffs(k.shapeIn, k.shapeOut, k.offs)[1]            \* ignored when the size does not change
       hi == QAdd(GeoLo, QMul(Q(CellsB2(m, f[1], f[2]), 2), GeoH))
   IN  [dL |-> f[1], dR |-> f[2], rL |-> f[3], rR |-> f[4], lo |-> GeoLo, hi |-> hi, off |-> o,
        cell   |-> CellSideB(GeoLo, hi, m, f[1], f[2]),
@@ -104,8 +105,10 @@ GeometryLaws ==
   obs.q = "geometry" =>
     \A i \in 1..Len(obs.geo) :
       LET g == obs.geo[i]
-          m == cfg.shapeIn[1]  n == cfg.shapeOut[1]  o == cfg.offs[1]
-      IN  \* the range is a uniform partition with the SAME cell side and the given flags
+          m == cfg.shapeIn[1]  n == cfg.shapeOut[1]  o == g.off
+      IN  \* an unchanged axis keeps the domain's nodes whatever offset entry was given
+          /\ (m = n => g.off = 0 /\ g.node0 = Node0B(g.lo, g.hi, m, g.dL, g.dR))
+          \* the range is a uniform partition with the SAME cell side and the given flags
           /\ g.cell = GeoH
           /\ CellSideB(g.ranlo, g.ranhi, n, g.rL, g.rR) = g.cell
           /\ Node0B(g.ranlo, g.ranhi, n, g.rL, g.rR) = g.node0
@@ -121,6 +124,13 @@ GeometryLaws ==
                 g.ranlo = RangeLo(g.lo, g.hi, m, n, o) /\ g.ranhi = RangeHi(g.lo, g.hi, m, n, o))
           \* growing: the range covers the domain
           /\ (n >= m => QLe(g.ranlo, g.lo) \/ g.rL > g.dL)
+
+\* offset entries on unchanged axes are ignored: the configuration with them set to 0 is the same map
+\* (offset = k on an n-d resizing that changes only some axes means [k, 0] style offsets)
+UnchangedAxisOffsetIgnored ==
+  (obs.q = "call" /\ obs.adm /\ EffOffs(cfg.shapeIn, cfg.shapeOut, cfg.offs) # cfg.offs) =>
+    LET k0 == [cfg EXCEPT !.offs = EffOffs(cfg.shapeIn, cfg.shapeOut, cfg.offs)]
+    IN  Adm(k0) /\ Mat(k0) = obs.mat /\ AffV(k0) = obs.aff
 
 (* ------------------------- sanity laws of the reference ------------------ *)
 RowSum(M, i, n) == LET RECURSIVE S(_)
